@@ -4,7 +4,7 @@
     sequences of a net at the level of marking tuples) in proof/C20_Bfs.v. *)
 From Coq Require Import ZArith NArith List Lia.
 Import ListNotations.
-From SK Require Import model.C20_Model proof.C20_Spec proof.C20_Siphon proof.C20_Petri proof.C20_Bfs proof.C20_Build proof.C20_Main.
+From SK Require Import model.C20_Model proof.C20_Spec proof.C20_Siphon proof.C20_Petri proof.C20_Bfs proof.C20_Build proof.C20_Main proof.C20_Hist.
 Local Open Scope nat_scope.
 
 (** The index predicate [_is_siphon_indices] is the Petri-net definition: for every network over the
@@ -130,3 +130,41 @@ Theorem C20_realizable_complete_partial :
 Proof. exact main_realizable_complete_partial. Qed.
 Print Assumptions C20_realizable_complete_partial.
 
+
+(** Call histories on ONE object ([last_flow], [built_after], [fresh] are defined in proof/C20_Hist.v: the flow
+    loaded after a list of calls, whether a net is built after it, the state of a fresh object loaded with
+    a flow and built or not).  After ANY sequence of is_realizable / is_scaled_realizable / certificate /
+    build_petri_net_from_flow / load_hypergraph_and_flow calls the object holds the flow loaded last, its
+    net and markings are exactly those built from that flow (or absent right after a reload), and a stored
+    certificate is a correct firing sequence of that flow — never of a scaled or an earlier one. *)
+Theorem C20_history_state :
+  forall (V : list N) (E : list edge) (flow : list Z) (ops : list pr_op),
+  let st := pr_exec V E (pr_loaded flow) ops in
+  let fl := last_flow flow ops in
+  pr_flow st = fl /\
+  pr_built st = (if built_after false ops then Some (build_petri_net_from_flow V E fl) else None) /\
+  (forall sq, pr_cert st = Some sq ->
+     realizes E fl sq /\
+     ((forall e, In e E -> NoDup (map fst (fst e))) -> Forall nonneg (markings_along E zero sq))).
+Proof. exact main_history_state. Qed.
+Print Assumptions C20_history_state.
+
+(** History independence: the answer of every call at every position of every history ([pr_run] is what the
+    correspondence evaluates) equals the answer a FRESH object — loaded with the current flow, built iff the
+    history has built — gives to the same call, and it leaves the same flow, net and markings behind.
+    (The [certificate] property returns the stored field, characterised by [C20_history_state].) *)
+Theorem C20_history_independence :
+  forall (V : list N) (E : list edge) (flow : list Z) (ops1 : list pr_op) (op : pr_op) (ops2 : list pr_op),
+  let st := pr_exec V E (pr_loaded flow) ops1 in
+  let fr := fresh V E (last_flow flow ops1) (built_after false ops1) in
+  nth_error (pr_run V E (pr_loaded flow) (ops1 ++ op :: ops2)) (length ops1) =
+    Some (snd (pr_step V E st op), fst (pr_step V E st op)) /\
+  snd (pr_step V E st op) =
+    match op with
+    | OpCert => ACert (pr_cert st)
+    | _ => snd (pr_step V E fr op)
+    end /\
+  pr_flow (fst (pr_step V E st op)) = pr_flow (fst (pr_step V E fr op)) /\
+  pr_built (fst (pr_step V E st op)) = pr_built (fst (pr_step V E fr op)).
+Proof. exact main_history_independence. Qed.
+Print Assumptions C20_history_independence.
